@@ -102,6 +102,106 @@ type facts struct {
 	// the hand-over in WriteEventWithTimestamp
 	handoverSends, handoverSelects, handoverGoStmts int
 	handoverPlainSend                               bool
+	// the WaitGroup discipline: who counts the workers, and when
+	workersSelfRegister, wgCloseOrder, wgWriterDoneLast, wgBatcherDoneLast, workersSpawned, hookSpawnsWorkers bool
+	wgAddCalls, wgCloseAdd, wgDoneCalls, workerGoStmts, loopPrologue                                           int
+}
+
+// methodDecl: the method `name` of *KafkaWriter (the DummyWriter has methods of the same names).
+func methodDecl(f *ast.File, name string) *ast.FuncDecl {
+	for _, d := range f.Decls {
+		if fd, ok := d.(*ast.FuncDecl); ok && fd.Name.Name == name && fd.Body != nil && fd.Recv != nil && len(fd.Recv.List) == 1 {
+			if st, ok := fd.Recv.List[0].Type.(*ast.StarExpr); ok && exprPath(st.X) == "KafkaWriter" {
+				return fd
+			}
+		}
+	}
+	return nil
+}
+
+// spawnsBothWorkers: the go statements of a constructor — how many, and whether they are exactly
+// `go <w>.writingLoop()` and `go <w>.batchingLoop()`, one each.
+func spawnsBothWorkers(fd *ast.FuncDecl) (int, bool) {
+	n, wl, bl := 0, 0, 0
+	ast.Inspect(fd, func(x ast.Node) bool {
+		if g, ok := x.(*ast.GoStmt); ok {
+			n++
+			switch p := exprPath(g.Call.Fun); {
+			case strings.HasSuffix(p, ".writingLoop") && len(g.Call.Args) == 0:
+				wl++
+			case strings.HasSuffix(p, ".batchingLoop") && len(g.Call.Args) == 0:
+				bl++
+			}
+		}
+		return true
+	})
+	return n, n == 2 && wl == 1 && bl == 1
+}
+
+// waitGroupFacts: how `runningWorkers` is used.  The model's Close() step is `Add(2); close(chan)` and its
+// closeReturn step `Wait()` returning: the ONLY Add of the file is the one in Close(), it has the literal
+// argument 2 and stands before close(toBatchMessagesChan), which stands before Wait(), which stands before the
+// kafka.Writer is closed (statements of one block, in this order); each worker calls Done() exactly once, as the
+// last thing it does (the statement before the `return` of the writing loop's done clause; the last statement of
+// the batching loop); workersSelfRegister: an Add inside one of the loops.
+func waitGroupFacts(ft *facts, wf *ast.File, wl, bl *ast.FuncDecl, doneCase *ast.CommClause) {
+	const add, done = ".runningWorkers.Add", ".runningWorkers.Done"
+	ft.wgAddCalls = len(callsIn(wf, add))
+	ft.wgDoneCalls = len(callsIn(wf, done))
+	ft.workersSelfRegister = len(callsIn(wl, add))+len(callsIn(bl, add)) > 0
+	if cl := methodDecl(wf, "Close"); cl != nil {
+		// the block that holds the Add / close / Wait statements: the function body or the body of `if w != nil {…}`
+		var seq []string
+		var scan func(list []ast.Stmt)
+		scan = func(list []ast.Stmt) {
+			for _, st := range list {
+				switch x := st.(type) {
+				case *ast.IfStmt:
+					if x.Else == nil && x.Init == nil {
+						scan(x.Body.List)
+						continue
+					}
+					seq = append(seq, "?")
+				case *ast.ExprStmt:
+					c, ok := x.X.(*ast.CallExpr)
+					if !ok {
+						seq = append(seq, "?")
+						continue
+					}
+					switch p := exprPath(c.Fun); {
+					case strings.HasSuffix(p, add):
+						seq = append(seq, "add")
+						if len(c.Args) == 1 {
+							if v, ok := intLit(c.Args[0]); ok {
+								ft.wgCloseAdd = v
+							}
+						}
+					case p == "close" && len(c.Args) == 1 && strings.HasSuffix(exprPath(c.Args[0]), ".toBatchMessagesChan"):
+						seq = append(seq, "close")
+					case strings.HasSuffix(p, ".runningWorkers.Wait"):
+						seq = append(seq, "wait")
+					case strings.HasSuffix(p, ".Writer.Close"):
+						seq = append(seq, "wclose")
+					default:
+						seq = append(seq, "?")
+					}
+				default:
+					seq = append(seq, "?")
+				}
+			}
+		}
+		scan(cl.Body.List)
+		ft.wgCloseOrder = strings.Join(seq, " ") == "add close wait wclose"
+	}
+	if n := len(doneCase.Body); n >= 2 && len(callsIn(wl, done)) == 1 {
+		_, isRet := doneCase.Body[n-1].(*ast.ReturnStmt)
+		es, ok := doneCase.Body[n-2].(*ast.ExprStmt)
+		ft.wgWriterDoneLast = isRet && ok && strings.HasSuffix(callPath(es.X), done)
+	}
+	if n := len(bl.Body.List); n >= 1 && len(callsIn(bl, done)) == 1 {
+		es, ok := bl.Body.List[n-1].(*ast.ExprStmt)
+		ft.wgBatcherDoneLast = ok && strings.HasSuffix(callPath(es.X), done)
+	}
 }
 
 // handoverFacts: how WriteEventWithTimestamp (function literals inside it included) puts the message
@@ -200,12 +300,14 @@ func astFacts(repo string) (facts, error) {
 	handoverFacts(&ft, wev)
 	// writing loop: for { select { case <-done: …; default: PopMultiple(N) … } }
 	wl := funcDecl(wf, "writingLoop")
-	if wl == nil || len(wl.Body.List) != 1 {
+	if wl == nil || len(wl.Body.List) == 0 {
 		return ft, fmt.Errorf("writingLoop: unexpected shape")
 	}
-	loop, ok := wl.Body.List[0].(*ast.ForStmt)
+	// the loop is the last statement; what stands in front of it (nothing, in the code the model describes) is counted
+	ft.loopPrologue = len(wl.Body.List) - 1
+	loop, ok := wl.Body.List[len(wl.Body.List)-1].(*ast.ForStmt)
 	if !ok || loop.Cond != nil || len(loop.Body.List) != 1 {
-		return ft, fmt.Errorf("writingLoop: not a bare for{select}")
+		return ft, fmt.Errorf("writingLoop: does not end in a bare for{select}")
 	}
 	sel, ok := loop.Body.List[0].(*ast.SelectStmt)
 	if !ok || len(sel.Body.List) != 2 {
@@ -270,10 +372,18 @@ func astFacts(repo string) (facts, error) {
 			}
 		}
 	}
-	if rangeAt != 0 || sendAt < 0 || relAt < 0 {
+	if rangeAt < 0 || sendAt < rangeAt || relAt < rangeAt {
 		return ft, fmt.Errorf("batchingLoop: unexpected shape")
 	}
+	ft.loopPrologue += rangeAt
 	ft.doneBeforeRelease = sendAt < relAt
+	waitGroupFacts(&ft, wf, wl, bl, doneCase)
+	ft.workerGoStmts, ft.workersSpawned = spawnsBothWorkers(ctor)
+	if hf, err := parser.ParseFile(fset, repo+"/common/event/verif_hooks.go", nil, 0); err == nil {
+		if hk := funcDecl(hf, "NewWriterForVerif"); hk != nil {
+			_, ft.hookSpawnsWorkers = spawnsBothWorkers(hk)
+		}
+	}
 	// FIFO
 	push, pop, rel := funcDecl(ff, "Push"), funcDecl(ff, "PopMultiple"), funcDecl(ff, "ReleaseGoroutines")
 	if push == nil || pop == nil || rel == nil {
@@ -662,6 +772,18 @@ func genFacts(repo string) (string, error) {
 	fmt.Fprintf(&b, "/-- go/ast: there is exactly one such send and it is an ordinary statement of a block (not the communication of a select clause): it blocks until the channel takes the message. -/\ndef handoverPlainSend : Bool := %s\n", lb(ft.handoverPlainSend))
 	fmt.Fprintf(&b, "/-- go/ast: select statements anywhere in WriteEventWithTimestamp. -/\ndef handoverSelects : Nat := %d\n", ft.handoverSelects)
 	fmt.Fprintf(&b, "/-- go/ast: go statements anywhere in WriteEventWithTimestamp. -/\ndef handoverGoStmts : Nat := %d\n\n", ft.handoverGoStmts)
+	b.WriteString("/-! go/ast, writer.go: the WaitGroup `runningWorkers` — who counts the two workers, and when. -/\n\n")
+	fmt.Fprintf(&b, "/-- a `runningWorkers.Add` call inside writingLoop or batchingLoop: the workers register themselves when they start running. -/\ndef workersSelfRegister : Bool := %s\n", lb(ft.workersSelfRegister))
+	fmt.Fprintf(&b, "/-- `runningWorkers.Add` calls anywhere in writer.go. -/\ndef wgAddCalls : Nat := %d\n", ft.wgAddCalls)
+	fmt.Fprintf(&b, "/-- the literal argument of the Add in (*KafkaWriter).Close (0: none). -/\ndef wgCloseAdd : Nat := %d\n", ft.wgCloseAdd)
+	fmt.Fprintf(&b, "/-- (*KafkaWriter).Close is, in this order and nothing else: runningWorkers.Add; close(toBatchMessagesChan); runningWorkers.Wait; Writer.Close. -/\ndef wgCloseOrder : Bool := %s\n", lb(ft.wgCloseOrder))
+	fmt.Fprintf(&b, "/-- `runningWorkers.Done` calls anywhere in writer.go (deferred ones included). -/\ndef wgDoneCalls : Nat := %d\n", ft.wgDoneCalls)
+	fmt.Fprintf(&b, "/-- writingLoop has one Done call: the statement before the `return` of the done clause. -/\ndef wgWriterDoneLast : Bool := %s\n", lb(ft.wgWriterDoneLast))
+	fmt.Fprintf(&b, "/-- batchingLoop has one Done call: its last statement. -/\ndef wgBatcherDoneLast : Bool := %s\n", lb(ft.wgBatcherDoneLast))
+	fmt.Fprintf(&b, "/-- go statements in NewWriterWithTopic. -/\ndef workerGoStmts : Nat := %d\n", ft.workerGoStmts)
+	fmt.Fprintf(&b, "/-- they are `go writer.writingLoop()` and `go writer.batchingLoop()`, one each. -/\ndef workersSpawned : Bool := %s\n", lb(ft.workersSpawned))
+	fmt.Fprintf(&b, "/-- statements in front of the `for` of writingLoop plus in front of the `range` of batchingLoop. -/\ndef loopPrologue : Nat := %d\n", ft.loopPrologue)
+	fmt.Fprintf(&b, "/-- the verification hook NewWriterForVerif spawns the same two workers, one each, and nothing else. -/\ndef hookSpawnsWorkers : Bool := %s\n\n", lb(ft.hookSpawnsWorkers))
 	rf, err := registryFacts(repo)
 	if err != nil {
 		return "", err
